@@ -73,7 +73,7 @@ theorem orderInv_step (P : Program) (F : Flags) (c : Config) (tr : List Label) (
     · subst hb
       rw [hnew] at hy; cases hy
       rw [(freshAct_fields P F c k t).2.2.2.2.2.2.2.2.2.1] at hlk; cases hlk
-    · rcases hcase with ⟨_, _, _, _, hoth⟩ | ⟨p, px, s0, hpx, _, _, _, _, hp', hoth⟩
+    · rcases hcase with ⟨_, _, _, _, hoth⟩ | ⟨p, px, s0, hpx, _, _, _, _, hp', hoth, _⟩
       · rw [hoth b hb] at hy
         exact hold b y s id hy hlk
       · by_cases hbp : b = p
